@@ -105,6 +105,7 @@ fn main() {
         "c19big" => tokenlevel::c19big(&args),
         "c16cli" => cli::c16cli(&args),
         "c18" => tokenlevel::c18(&args),
+        "c08" => tokenlevel::c08(&args),
         "c19" => tokenlevel::c19(&args),
         "replay" => families::replay(&args),
         "timing" => {
